@@ -555,6 +555,44 @@ def check_model_isotherms(ctx):
     ctx.require('model-isotherm analyses', nt, 200)
 
 
+def check_henry_limits(ctx):
+    """initial_henry_slope with pressure / loading limits on data that are EXACTLY linear inside the limits (so that the point-dropping search,
+    whose absolute tolerance is the known D31, has nothing to drop): K is the generating slope times the unit factors, in every representation."""
+    import pygaps
+    import pygaps.characterisation as pgc
+    T = 77.355
+    c = ru.ads_consts(pygaps.Adsorbate.find('N2').backend_name, T)
+    ev = nt = 0
+    p = numpy.concatenate([numpy.linspace(0.002, 0.02, 10), numpy.linspace(0.03, 0.6, 15)])
+    for k in (40.0 * ctx.scale, 150.0):
+        n = numpy.where(p <= 0.0201, k * p, k * 0.02 + (k * 0.3) * (p - 0.02))       # mmol/g vs relative pressure: linear through the origin up to 0.02
+        base = pygaps.PointIsotherm(pressure=p, loading=n, material='c15h', adsorbate='N2', temperature=T, pressure_mode='relative', loading_basis='molar',
+                                    loading_unit='mmol', material_basis='mass', material_unit='g', temperature_unit='K')
+        for (pm, pu) in (('relative', None), ('absolute', 'bar'), ('absolute', 'kPa'), ('relative%', None)):
+            # (representations in which the loadings become small numbers - mol, m3, cm3 of liquid - are the domain of the known D31: the fit inside stops at once)
+            for (lb, lu) in (('molar', 'mmol'), ('molar', 'cm3(STP)'), ('mass', 'mg'), ('volume_gas', 'cm3'), ('molar', 'umol' if False else 'mmol')):
+                iso = clone(base)
+                iso.convert(pressure_mode=pm, pressure_unit=pu, loading_basis=lb, loading_unit=lu)
+                with ru.library_tables():
+                    fl = float(ru.c_loading(1.0, 'molar', 'mmol', lb, lu, c))
+                    fp = float(ru.c_pressure(1.0, 'relative', None, pm, pu, c))
+                want = k * fl / fp
+                pr_, ld_ = iso.pressure(branch='ads'), iso.loading(branch='ads')
+                for how, kw in (('p_limits', dict(p_limits=(None, float(pr_[9]) * 1.0001))), ('l_limits', dict(l_limits=(None, float(ld_[9]) * 1.0001))),
+                                ('both limits', dict(p_limits=(float(pr_[0]) * 0.5, float(pr_[9]) * 1.0001), l_limits=(float(ld_[1]) * 0.999, None)))):
+                    o = core.call(pgc.initial_henry_slope, iso, **kw)
+                    ev += 1
+                    nt += 1
+                    # (2e-2: the fit inside stops on absolute tolerances - known D31 - which moves K by up to 1e-3 on these data)
+                    if not o.ok or abs(float(o.value) - want) > 2e-2 * abs(want):
+                        cls = 'pressure' if (lb, lu) == ('molar', 'mmol') else ('loading' if (pm, pu) == ('relative', None) else 'both')
+                        ctx.violate(core.make_violation(
+                            {'check': 'henry-slope-with-limits', 'limits': how, 'converted': cls, 'kind': 'value' if o.ok else 'raises:' + o.kind},
+                            f'initial_henry_slope({how}) on data exactly linear (slope {k} mmol/g per unit relative pressure) inside the limits, stored as {(pm, pu, lb, lu)}: '
+                            f'{o.value if o.ok else o.brief()[:160]} instead of {want:.9g}', {'rep': (pm, pu, lb, lu), 'limits': how}, want, o.value if o.ok else None))
+    ctx.add('henry_slope_with_limits', ev, nt)
+
+
 def run(ctx):
     E, heavy = entries(ctx.tier)
     if ctx.quick:
@@ -589,6 +627,7 @@ def run(ctx):
     check_isosteric(ctx)
     check_alpha_reference(ctx)
     check_model_isotherms(ctx)
+    check_henry_limits(ctx)
     ctx.cov['analyses_not_returning_on_the_original_representation'] = nr
     ctx.cov['domain_sizes'] = {'entry_points': len(E) + len(heavy), 'representations': len(reps), 'isotherms': len(isos)}
     ctx.cov['rule'] = ('every characterisation entry point x stored representations (thorough: 10 pressure x 25 loading x 2 temperature units; quick: 10 x 4 + 2 x 25 + Celsius samples) x '
